@@ -535,6 +535,11 @@ class C15(Property):
         'as_per_substance_dict; dict / OrderedDict / defaultdict and list / tuple / deque / ndarray for as_per_substance_array; predicate '
         'results of subset that are merely truthy): a Python-level notion, the model sees a list (addItems: materialise once, validate, use). '
         'Decided by the oracle: same result, or same ValueError refusal for a non-Reaction item, as for a list of the same items',
+        'a QUERY leaves its receiver as it was (categorize_substances with constructor keywords such as missing_substances_from_keys / '
+        'sort_substances; reactions, substances, their order, the dict the system was built on): object state, oracle only — standalone op '
+        'categorize_kw and the `query` operation inside histories (every system of the store is compared with its spec after every operation)',
+        'upper_conc_bounds over concentrations spanning 1e-30 … 1e3 (trace species carrying a whole element): exact Fraction reference, the real '
+        'double sums are compared to 1e-12 relative (same-sign terms); for dyadic inputs the comparison is exact',
         'per_substance_varied (dense array of all combinations of varied levels): modelled (rows in C order, ValueError/IndexError cases), '
         'no theorem; exact correspondence + oracle (every entry of every row against base / varied level)',
         'upper_conc_bounds with the default float64 dtype: driven by the correspondence only for compositions without a zero atom count '
@@ -599,7 +604,7 @@ class C15(Property):
         kinds = (['split'] * 24 + ['categorize'] * 12 + ['identify_equilibria'] * 8 + ['participation'] * 5 + ['effect'] * 5
                  + ['subset'] * 8 + ['add'] * 4 + ['add_rxns'] * 1 + ['iadd'] * 3 + ['iadd_rxns'] * 1 + ['eq'] * 3 + ['concatenate'] * 3
                  + ['make'] * 12 + ['as_reactions'] * 4 + ['check'] * 3 + ['any_effect'] * 2 + ['rxn_eq'] * 3
-                 + ['categorize_signed'] * 3 + ['array_units'] * 1 + ['as_reactions_args'] * 2 + ['array_from_dict'] * 3 + ['array_from_list'] * 2 + ['dict_from_array'] * 2
+                 + ['categorize_signed'] * 3 + ['categorize_kw'] * 5 + ['array_units'] * 1 + ['as_reactions_args'] * 2 + ['array_from_dict'] * 3 + ['array_from_list'] * 2 + ['dict_from_array'] * 2
                  + ['substance_index'] * 2 + ['varied'] * 2 + ['upper_bounds'] * 10 + ['history'] * 7)
         for _ in range(n):
             cases.append(self.gen_case(rng, rng.choice(kinds)))
@@ -687,6 +692,13 @@ class C15(Property):
             spec = gen_sys(rng, max_r=2, comps=False)
             return {'oracle_only': 'array_units', 'sys': spec, 'vals': [rng.randint(0, 40) for _ in spec['subs']],
                     'as_dict': rng.random() < 0.5}
+        if kind == 'categorize_kw':
+            spec = gen_sys(rng, 8, 6, unknown_p=0.3, eq_p=rng.choice([0, 0.2]))
+            used = [k for k, _ in spec['subs'] if any(k in s_keys(rx) for rx in spec['rxns'])]
+            for k in rng.sample(used, min(len(used), rng.randint(0, 3))):       # substances the reactions need but the system lacks
+                spec['subs'] = [e for e in spec['subs'] if e[0] != k]
+            return {'op': 'categorize_kw', 'sys': spec, 'checks': gen_checks(rng) if rng.random() < 0.4 else [],
+                    'missing': rng.random() < 0.7, 'sort': rng.choice([None, True, False])}
         if kind == 'as_reactions':
             pool = rng.sample(POOL, rng.randint(1, 5))
             rx = gen_equilibrium(rng, pool, 0.4)
@@ -872,9 +884,11 @@ class C15(Property):
                 elif r < 0.65:
                     ops.append(['subset', i, gen_pred(rng, store[0])])
                     n_store += 2
-                elif r < 0.9:
+                elif r < 0.8:
                     ops.append(['split', i])
                     n_store += 0          # unknown growth: later indices stay within the known prefix
+                elif r < 0.9:             # a QUERY with constructor keywords: must leave the receiver as it is
+                    ops.append(['query', i, rng.random() < 0.7, rng.choice([None, True, False])])
                 else:
                     idx = rng.sample(range(n_store), min(n_store, rng.randint(1, 3)))
                     ops.append(['concat', idx])
@@ -936,6 +950,14 @@ class C15(Property):
                 a = mk_rxn(c['a'])
                 b = a if c['other'] == 'same' else mk_rxn(c['b'])
                 return 'true' if a == b else 'false'
+            if op == 'categorize_kw':
+                rs, _ = mk_sys(c['sys'])
+                try:
+                    cat = rs.categorize_substances(checks=tuple(c['checks']), missing_substances_from_keys=c['missing'],
+                                                   sort_substances=c['sort'])
+                except ValueError as e:
+                    return check_err(e)
+                return dumps([sorted(cat[nm]) for nm in ('accumulated', 'depleted', 'unaffected', 'nonparticipating')] + [show_sys(rs)])
             if op == 'categorize_signed':
                 rs, _ = mk_sys({'rxns': c['rxns'], 'subs': c['subs']})
                 try:
@@ -1054,6 +1076,11 @@ class C15(Property):
                         store.extend(store[o[1]].subset(mk_pred(o[2])))
                     elif o[0] == 'split':
                         store.extend(store[o[1]].split(checks=()))
+                    elif o[0] == 'query':
+                        try:
+                            store[o[1]].categorize_substances(checks=(), missing_substances_from_keys=o[2], sort_substances=o[3])
+                        except (ValueError, TypeError):
+                            pass
                     elif o[0] == 'concat':
                         a, b = ReactionSystem.concatenate([store[k] for k in o[1]])
                         if len(o[1]) != 1:                  # a one-element list returns store[o[1][0]] itself
@@ -1182,6 +1209,43 @@ class C15(Property):
             want = s_rxn_eq(c['a'], c['b'])
             if (a == b) is not want or (b == a) is not want or (a != b) is want:
                 return 'Reaction == gives %r, by definition (four ordered dicts and the parameter) %r' % (a == b, want)
+            return None
+        if op == 'categorize_kw':
+            spec = c['sys']
+            od = OrderedDict((k, mk_subst(v)) for k, v in spec['subs'])     # the caller's dict
+            rs = ReactionSystem([mk_rxn(r) for r in spec['rxns']], od, checks=())
+            irrev = s_expand(spec['rxns'])
+            keys = [k for k, _ in spec['subs']]
+            allk = keys + sorted(set(k for r in spec['rxns'] for k in s_keys(r)) - set(keys)) if c['missing'] else keys
+            try:
+                cat = rs.categorize_substances(checks=tuple(c['checks']), missing_substances_from_keys=c['missing'],
+                                               sort_substances=c['sort'])
+                err = None
+            except (ValueError, TypeError) as e:
+                cat, err = None, e
+            if show_sys(rs) != [spec['rxns'], spec['subs']] or list(od) != keys:
+                return ('the query categorize_substances(missing_substances_from_keys=%s, sort_substances=%s) changed its receiver: '
+                        'substances %s -> %s (caller\'s dict %s)' % (c['missing'], c['sort'], keys, list(rs.substances), list(od)))
+            if irrev is None:
+                return None if isinstance(err, ValueError) else 'an equilibrium that cannot be split was accepted'
+            if c['missing'] and not irrev:
+                return None if isinstance(err, TypeError) else 'missing_substances_from_keys without reactions: %r' % (err,)
+            bad = failing_checks(irrev, allk) & set(c['checks'])
+            if err is not None:
+                return None if bad and isinstance(err, ValueError) else 'categorize_substances raised %r although the requested checks hold' % (err,)
+            if bad:
+                return 'categorize_substances accepted a system failing ' + ','.join(sorted(bad))
+            for k in allk:
+                nets = [s_net(rx, k) for rx in irrev]
+                pos, neg = any(n > 0 for n in nets), any(n < 0 for n in nets)
+                present = any(s_all_reac(rx, k) > 0 or s_all_prod(rx, k) > 0 for rx in irrev)
+                want = ('accumulated' if pos and not neg else 'depleted' if neg and not pos else None if pos and neg
+                        else 'unaffected' if present else 'nonparticipating')
+                got = [nm for nm in cat if k in cat[nm]]
+                if got != ([want] if want else []):
+                    return 'substance %s categorised %s, definition says %s (net effects %s)' % (k, got, want, nets)
+            if set().union(*cat.values()) - set(allk):
+                return 'categories contain keys that are neither substances nor reaction keys'
             return None
         if op == 'categorize_signed':
             keys = [k for k, _ in c['subs']]
@@ -1760,6 +1824,11 @@ class C15(Property):
                     yes = [r for r in rx if eval_pred(o[2], r)]
                     no = [r for r in rx if not eval_pred(o[2], r)]
                     specs.extend([[yes, sp_used(subs, yes)], [no, sp_used(subs, no)]])
+                elif o[0] == 'query':
+                    try:
+                        store[o[1]].categorize_substances(checks=(), missing_substances_from_keys=o[2], sort_substances=o[3])
+                    except (ValueError, TypeError):
+                        pass                                  # specs unchanged: a query leaves its receiver as it was
                 elif o[0] == 'split':
                     parts = store[o[1]].split(checks=())
                     rx, subs = specs[o[1]]
